@@ -126,8 +126,17 @@ func (c *peerConn) Write(p []byte) (int, error) {
 
 func (c *peerConn) Close() error {
 	c.mu.Lock()
-	defer c.mu.Unlock()
+	req := c.req
+	c.req = nil
+	was := c.closed
 	c.closed = true
+	c.mu.Unlock()
+	if !was && len(req) > 0 {
+		// request bytes went out on this connection and the client closed it without reading: on a real socket
+		// they have reached the peer (there is no specification action for this event)
+		rec := c.r.decode(c, req)
+		c.r.ev("Sent", map[string]interface{}{"x": c.r.x, "conn": c.id, "method": rec["method"], "target": rec["target"]})
+	}
 	return nil
 }
 
@@ -146,7 +155,7 @@ func (d *dialer) DialConnection(nw, address string, timeout time.Duration, tlsCo
 	r.mu.Lock()
 	r.nconn++
 	id := r.nconn
-	refuse := r.si < len(r.c.Script) && r.c.Script[r.si].B == "dialerr"
+	refuse := r.x != 0 && r.si < len(r.c.Script) && r.c.Script[r.si].B == "dialerr"
 	if refuse {
 		r.si++
 	}
